@@ -4,11 +4,8 @@ import importlib, os, sys
 sys.path.insert(0, os.path.join(vlib.VERIF, "driver"))
 _c17 = importlib.import_module("props.c17")
 _c17.write_corpora()
-try:
-    _m = importlib.import_module("attr_templates")
-    _text, _unrec = _m.main(ctx.repo, None)
-    vlib.gen_if_changed(os.path.join(vlib.COQ, "gen", "Gen_attr.v"), _text)
-    if _unrec:
-        ctx.log("attr_templates: unrecognised: %s" % _unrec)
-except ImportError:
-    pass
+_m = importlib.import_module("attr_templates")
+_text, _unrec = _m.main(ctx.repo, None)
+vlib.gen_if_changed(os.path.join(vlib.COQ, "gen", "Gen_attr.v"), _text)
+if _unrec:
+    ctx.log("attr_templates: unrecognised: %s" % _unrec)
